@@ -802,7 +802,7 @@ def run(rep, tier, seed):
         D = 4 if quick else 5
         runs = []
         for scope, mo in (("repr", D), ("reprT", D + 1), ("reprD", D + 1), ("idT", D - 1), ("idC", D), ("fail", D), ("conf", D - 1)):
-            runs.append((f"intended {scope}", (d, [], scope, mo, PROPS, {"workers": 4, "coverage": True}), True, None))
+            runs.append((f"intended {scope}", (d, [], scope, mo, PROPS, {"workers": 4}), True, None))
         runs += [
             ("faithful repr (F4a)", (d, FAITHFUL, "repr", D, ["ReturnFresh"], {"workers": 2}), False, ["ReturnFresh"]),
             ("faithful reprT NoForeignDedup", (d, FAITHFUL, "reprT", D, ["NoForeignDedup"], {"workers": 2}), False, ["NoForeignDedup"]),
@@ -824,25 +824,17 @@ def run(rep, tier, seed):
                                             {"workers": 2, "dump_dot": os.path.join(d, f"g_{scope}")}), True, None))
         with ThreadPoolExecutor(8) as ex:
             results = list(ex.map(_tlc, [r[1] for r in runs]))
-        cov_total = {}
         targets = []
         for (label, args, expect_ok, must), res in zip(runs, results):
             _check_tlc(rep, res, label, expect_ok, must)
-            if label.startswith("intended"):
-                for a, (dd, tt) in _coverage(res.output).items():
-                    o = cov_total.get(a, (0, 0))
-                    cov_total[a] = (o[0] + dd, o[1] + tt)
             if label.startswith("faithful") and res.violated:
                 steps = [(_op_of(a), st) for a, st in res.error_trace[1:]]
                 targets.append(History(args[2], steps, f"TLC counter-example: {label}"))
-        never = sorted(a for a in ("Bearable", "Die", "Decorate", "Call", "Subhint", "ThEq", "Hold", "Drop", "LeHeld",
-                                   "Redefine", "ClearCaches") if cov_total.get(a, (0, 0))[1] == 0)
-        if never:
-            rep.machinery(f"vacuous TLC runs: actions never taken {never}")
         rep.note(f"R1 done in {time.time() - t0:.0f}s: {len(runs)} TLC runs, {len(targets)} counter-examples to replay first")
 
         # ------------------------------------------------------------------ R2: histories
         hists = list(targets)
+        taken, ante = {}, {}
         per_scope = 140 if quick else 0
         for scope, mo in graph_scopes:
             g = tlc.parse_dot(os.path.join(d, f"g_{scope}.dot"))
@@ -853,7 +845,30 @@ def run(rep, tier, seed):
             for p in paths:
                 steps = [(_op_of(a), g.nodes[t]) for (s, a, t) in p]
                 hists.append(History(scope, steps, f"edge cover of the faithful Door.tla graph, scope {scope}"))
-            # vacuity of the antecedents, on the graph itself
+            # vacuity: which actions TLC took and which antecedents it made true, read off its state graph
+            # (-coverage triples the run time; guards do not depend on Legacy, so the graph of the faithful model
+            # covers the action coverage of the intended runs over the same constants)
+            for (s_, a, t) in g.edges:
+                nm = tlc.parse_action(a)[0]
+                taken[nm] = taken.get(nm, 0) + 1
+            for st in g.nodes.values():
+                l = st["last"]
+                for flag in ("judged", "hit", "stale", "swap"):
+                    if l[flag]:
+                        ante[flag] = ante.get(flag, 0) + 1
+                if l["judged"] and l["fresh"]["exc"] != "none":
+                    ante["failing_query"] = ante.get("failing_query", 0) + 1
+                if l["judged"] and l["hit"] and not l["stale"]:
+                    ante["legit_hit"] = ante.get("legit_hit", 0) + 1
+        never = sorted(a for a in ("Bearable", "Die", "Decorate", "Call", "Subhint", "ThEq", "Hold", "Drop", "LeHeld",
+                                   "Redefine", "ClearCaches") if not taken.get(a))
+        if never:
+            rep.machinery(f"vacuous TLC runs: actions never taken {never}")
+        missing = [f for f in ("judged", "hit", "legit_hit", "stale", "swap", "failing_query") if not ante.get(f)]
+        if missing:
+            rep.machinery(f"vacuous TLC runs: antecedents never true {missing}")
+        rep.cov["actions_taken"] = taken
+        rep.cov["antecedents_true"] = ante
         nsim, dsim = (60, 9) if quick else (600, 14)
         cfg = _cfg(d, FAITHFUL, "all", dsim, ["TypeOK"])
         sres, behs = tlc.simulate("Door.tla", cfg, num=nsim, depth=dsim + 1, seed=seed + 1)
